@@ -113,14 +113,27 @@ def CASES(tier, seed):
                 plan += [(si, c_choose, 30)]
             elif m == 3 and first:
                 plan += [(si, c_lvl0, 30)]
-        else:  # thorough: all variants on the first qconj pattern, core selection on the others
-            plan += [(si, [c_all, c_lvl3, c_lvl0][(si // 3 + si) % 3], 100 if first else -1)]
-            if first:
-                plan += [(si, c_none, 100), (si, c_choose, -2)]
+        else:  # thorough (sized by CPU time: ~17000 core-seconds): 100 = all variants, -3 = the quick variants, -1 = CORE_OPS, -2 = CHOOSE_OPS
+            second = st['legs'][0]['qconj'] == -1
+            c_perm = dict(c_lvl0, prestate='choice')
+            if m == 1 and first:
+                plan += [(si, c_all, 100), (si, c_none, -3), (si, c_choose, -2)]
+            elif m == 1 and second:
+                plan += [(si, c_lvl3, -1)]
+            elif m == 2 and first:
+                plan += [(si, c_perm, -3)]
+            elif m == 2 and second:
+                plan += [(si, c_all, -1)]
+            elif m == 3 and first:
+                plan += [(si, c_lvl3, -1)]
+            elif m == 3 and second:
+                plan += [(si, c_lvl0, -2)]
     for si, cb, lim in plan:
         st = structsA[si]
         ops = [o for o in opsA if P1.COST_A.get(tuple(o), 1.5) < lim]
-        if lim < 0:
+        if lim == -3:
+            ops = [(n, v) for n, sp in C.OPS.items() if 'A' in sp.tiers for v in sp.quick]
+        elif lim < 0:
             sel = CORE_OPS if lim == -1 else CHOOSE_OPS
             ops = [o for o in opsA if tuple(o) in sel and tuple(o) != ('ipurge_zeros', 'cutoff')]
         if quick:  # Tier A quick: core selection (every variant runs in Tier B and in the thorough tier)
@@ -139,7 +152,7 @@ def CASES(tier, seed):
             continue
         cb = dict(subset='draw' if si % 3 else 'all', prestate=['reversed', 'rotated', 'sorted'][si % 3], legflags=['computed', 'false'][si % 2],
                   opt_level=[1, 0, 3][si % 3])
-        for ci, chunk in enumerate(P1._chunks(opsB, 40)):
+        for ci, chunk in enumerate(P1._chunks(opsB, 40 if tier == 'quick' else (8 if st['rank'] > 3 else 14))):
             cases.append(dict(name=f"B[{si},mod={st['mods']},rank={st['rank']},{cb['subset']},{cb['prestate']},flags={cb['legflags']},"
                                    f"opt={cb['opt_level']}]ops{ci}:{P1._opsname(chunk)}",
                               fn='inv_case', params=dict(struct=st, ops=chunk, cplx=(si % 2 == 1), consume=list(ALL_CONSUMERS), **cb), opts=OB))
